@@ -18,6 +18,7 @@ def run(ctx):
     ctx.do(S.rule_ax1, [S.CORE, H.HYP], scope=ctx.scope(ENTRIES))
     ctx.do(SI.rule_x3)
     ctx.do(S.rule_sh5, only=S.SH5_C14)
+    ctx.do(SI.rule_mean1, [SI.HYP], scope=ctx.scope(ENTRIES))
     ctx.do(SI.rule_pt1, [SI.HYP], scope=ctx.scope(ENTRIES))
     ctx.do(u1, ENTRIES, min_functions=15)
     ctx.r.assume("that centre/radius/angles describe the true geodesic, "
